@@ -5,5 +5,5 @@ SPEC = seq_spec(
     "Exactness is enforced on every observed upload: the acceptor accepts a tile/bundle/checkpoint upload only if its content is the slice of the round's new tree prescribed for that key and the bytes are the Static CT rendering of that slice (Lean rendering incl. SHA-256, compared by digest and length; names tiles from independently derived expectations). Lean 4 theorems: checkpoint upload only after all tile uploads returned successfully, bundle = exactly the tiles of tlog.NewTiles plus data/names tiles, immutable objects keep their content, only staging bundles are discarded. Oracle: independent full audit of the store at the instant each checkpoint upload takes effect. Completeness (I3) is a theorem: C04_complete_at_publish — in every reachable untampered state the checkpoint tree is completely rendered by immutable tile objects with the prescribed content (store invariant Inv3 over all event sequences; tile arithmetic req_cover / slice_stable / mem_newTilesList for all sizes).",
     "Trusted: Lean kernel, standard axioms, extractor, harness stores/scheduler, Lean SHA-256 rendering. Assumes the Backend/LockBackend contracts, collision resistance, unforgeability.",
     "invariants by induction over all accepted event sequences (Lean 4) + regenerated effect-skeleton tie + trace acceptance of the real code with byte-exact rendering",
-    required=["C04_complete_at_publish", "C04_published_stay_complete", 'C04_tiles_before_checkpoint', 'C04_bundle_exact', 'C04_immutable_once', 'C04_only_staging_discarded', 'C04_tiles_only_committed', 'C04_tiles_render_lock_tree', 'C04_object_shapes'],
+    extra_tie=["Tie.S3"], required=["C04_complete_at_publish", "C04_published_stay_complete", 'C04_tiles_before_checkpoint', 'C04_bundle_exact', 'C04_immutable_once', 'C04_only_staging_discarded', 'C04_tiles_only_committed', 'C04_tiles_render_lock_tree', 'C04_object_shapes'],
 )
